@@ -14,7 +14,8 @@ ENV.update({"CARGO_NET_OFFLINE": "true", "CARGO_TARGET_DIR": os.path.join(HARNES
 
 TRUSTED_BASE = [
     "Coq 8.16.1 kernel incl. vm_compute (no native_compute)",
-    "tools/rs2v.py (translator for regenerated tables/kernels) and its reading of the Rust subset",
+    "tools/rs2v.py (translator for regenerated tables/kernels) and its reading of the Rust subset; tools/gen_spec_tables.py (H.263 code tables from vlib/h263spec.py into coq/spec/SpecTables.v)",
+    "axioms: none declared by this development; per theorem as listed under coverage.axioms (Print Assumptions): for everything that mentions the Flocq binary32 model the standard-library axioms ClassicalDedekindReals.sig_forall_dec, ClassicalDedekindReals.sig_not_dec, FunctionalExtensionality.functional_extensionality_dep, Classical_Prop.classic; for the interval-based basis-table lemma of C10 also the primitive float / Uint63 axioms of the standard library",
     "extraction: ExtrOcamlBasic only (Extract Inductive bool/option/unit/prod/list/sumbool/sumor), no Extract Constant; Z/positive/nat stay inductives",
     "ocaml/driver.ml + zutil.ml (case parsing/printing), harness/src/*.rs (case parsing, catch_unwind, printing), vlib/*.py (diff, generators)",
     "modelled not verified: Rust std collections/slices, Read::read_exact, `wide` lane semantics, bytemuck casts, bitflags, num-traits checked shifts, IEEE-754 behaviour of rustc/LLVM on x86-64",
